@@ -247,6 +247,54 @@ theorem priorityLoop_spec (K : List UInt8 → List UInt8) (hash : List UInt8) :
         · exact Or.inl h
         · exact Or.inr ⟨t, by omega, by omega, h3⟩
 
+/-! ### `big.Int.Bytes()` round-trips -/
+
+theorem natOfBytes_foldl (bs : List UInt8) (acc : Nat) :
+    bs.foldl (fun a b => a * 256 + b.toNat) acc = acc * 256 ^ bs.length + natOfBytes bs := by
+  induction bs generalizing acc with
+  | nil => simp [natOfBytes]
+  | cons b bs ih =>
+    simp only [List.foldl_cons, List.length_cons, natOfBytes]
+    rw [ih, ih (0 * 256 + b.toNat)]
+    simp only [Nat.zero_mul, Nat.zero_add, Nat.pow_succ]
+    rw [Nat.add_mul, Nat.mul_assoc, Nat.mul_comm 256 (256 ^ bs.length), Nat.add_assoc]
+
+theorem natOfBytes_cons (b : UInt8) (bs : List UInt8) :
+    natOfBytes (b :: bs) = b.toNat * 256 ^ bs.length + natOfBytes bs := by
+  have := natOfBytes_foldl bs (0 * 256 + b.toNat)
+  simp only [natOfBytes, List.foldl_cons] at this ⊢
+  rw [this]; simp
+
+theorem minBEAux_val : ∀ fuel n acc, n < fuel →
+    natOfBytes (minBEAux fuel n acc) = n * 256 ^ acc.length + natOfBytes acc := by
+  intro fuel
+  induction fuel with
+  | zero => intro n acc h; omega
+  | succ fuel ih =>
+    intro n acc h
+    unfold minBEAux
+    by_cases hn : n = 0
+    · simp [hn]
+    · simp only [hn, if_false]
+      rw [ih (n / 256) _ (by omega)]
+      rw [natOfBytes_cons]
+      simp only [List.length_cons, UInt8.toNat_ofNat', Nat.pow_succ]
+      have h1 : n % 256 % 2 ^ 8 = n % 256 := by omega
+      rw [h1]
+      have h2 : n = n / 256 * 256 + n % 256 := by omega
+      generalize 256 ^ acc.length = P
+      generalize natOfBytes acc = A
+      calc n / 256 * (P * 256) + (n % 256 * P + A)
+          = (n / 256 * 256 + n % 256) * P + A := by
+            rw [Nat.add_mul, Nat.mul_comm P 256, ← Nat.mul_assoc, Nat.add_assoc]
+        _ = n * P + A := by rw [← h2]
+
+/-- `big.Int.Bytes()` round-trips: the seat index is recoverable from its hash input suffix -/
+theorem natOfBytes_minBE (n : Nat) : natOfBytes (minBE n) = n := by
+  unfold minBE
+  rw [minBEAux_val (n + 1) n [] (by omega)]
+  simp [natOfBytes]
+
 theorem natOfBytes_zero32 : natOfBytes zero32 = 0 := by decide
 
 end YouVerif.C04
